@@ -472,7 +472,7 @@ func c04Equiv(r *core.Run) {
 		w := 0
 		core.InstrsOf(fn, func(in ssa.Instruction) {
 			if mu, ok := in.(*ssa.MapUpdate); ok {
-				if _, isI := core.FieldLoad(mu.Map, "instrMap"); isI {
+				if _, _, isI := fieldLoadBy(mu.Map, isInstrInstrMap); isI {
 					w++
 				}
 			}
@@ -491,9 +491,11 @@ func c04Equiv(r *core.Run) {
 				}
 				// calls from mapValue (value pairs already vetted by their callers) are exempt when the
 				// arguments are type assertions of its own parameters
-				if _, isEx := args[1].(*ssa.Extract); isEx && fn.Name() != "matchUsers" && fn.Name() != "alignEntryBlock" {
-					if _, isTA := args[1].(*ssa.Extract).Tuple.(*ssa.TypeAssert); isTA {
-						continue
+				if ex, isEx := args[1].(*ssa.Extract); isEx {
+					if ta, isTA := ex.Tuple.(*ssa.TypeAssert); isTA {
+						if _, ofParam := ta.X.(*ssa.Parameter); ofParam {
+							continue
+						}
 					}
 				}
 				n++
@@ -641,7 +643,7 @@ func c04BlockMap(r *core.Run) {
 			base, _ := core.StripNot(cond)
 			if ex, ok := base.(*ssa.Extract); ok && ex.Index == 1 {
 				if lk, ok := ex.Tuple.(*ssa.Lookup); ok {
-					if _, isM := core.FieldLoad(lk.X, "instrMap"); isM {
+					if _, _, isM := fieldLoadBy(lk.X, isInstrInstrMap); isM {
 						return "instruction is unmatched", true
 					}
 				}
